@@ -11,8 +11,6 @@ use core::cmp;
 #[cfg(not(feature = "compact"))]
 use lexical_parse_integer::algorithm;
 use lexical_util::digit::char_to_valid_digit_const;
-#[cfg(feature = "radix")]
-use lexical_util::digit::digit_to_char_const;
 use lexical_util::format::NumberFormat;
 use lexical_util::iterator::{AsBytes, DigitsIter, Iter};
 use lexical_util::num::{AsPrimitive, Integer};
@@ -517,8 +515,9 @@ macro_rules! integer_compare {
                 // Could have hit the decimal point.
                 _ => break,
             };
-            let rem = $num.data.quorem(&$den.data) as u32;
-            let expected = digit_to_char_const(rem, $radix);
+            // Compare the digit values: the input digits may be in either case.
+            let actual = char_to_valid_digit_const(actual, $radix);
+            let expected = $num.data.quorem(&$den.data) as u32;
             $num.data.mul_small($radix as Limb).unwrap();
             if actual < expected {
                 return cmp::Ordering::Less;
@@ -556,8 +555,9 @@ macro_rules! fraction_compare {
                 // No more actual digits, or hit the exponent.
                 _ => return cmp::Ordering::Less,
             };
-            let rem = $num.data.quorem(&$den.data) as u32;
-            let expected = digit_to_char_const(rem, $radix);
+            // Compare the digit values: the input digits may be in either case.
+            let actual = char_to_valid_digit_const(actual, $radix);
+            let expected = $num.data.quorem(&$den.data) as u32;
             $num.data.mul_small($radix as Limb).unwrap();
             if actual < expected {
                 return cmp::Ordering::Less;
